@@ -7,7 +7,6 @@ real worker threads), file cache on SimFS or per-level sqlite cache on tmpfs.  T
 parties are the clock (advances, second boundaries, backward steps) and the upstream
 (failures / recovery).  One harness task issues the operations; seed workers are adopted threads.
 """
-import calendar
 import copy
 import os
 import shutil
@@ -44,7 +43,7 @@ COMPONENTS = {
 }
 ASSUMPTIONS = [
     'mapproxy truncates tile timestamps to whole seconds on purpose: if floor(tile time) == floor(threshold) either outcome is accepted (counted as unspecified)',
-    'TZ=UTC; thresholds and timestamps are compared as recorded (SimFS st_mtime / sqlite last_modified), never against wall time',
+    'fixed-offset local time zones (no DST transitions); thresholds and timestamps are compared as recorded (SimFS st_mtime / sqlite last_modified), never against wall time',
     'seed task with meta tiles: the walker judges a meta tile by its main tile; mixed-freshness meta tiles are unspecified',
 ]
 
@@ -101,10 +100,15 @@ def gen(t, tier):
             sc['ops'].append(['upfail', bool(t.choice(2))])
         else:
             sc['ops'].append(['seed', {'offset': t.pick([-3600, -5, -1, 0, 1, 5])}])
+    sc['tz'] = t.pick(C.TIMEZONES)
     return sc
 
 
 def shrink(sc):
+    if sc.get('tz', 'UTC') != 'UTC':
+        c = copy.deepcopy(sc)
+        c['tz'] = 'UTC'
+        yield c
     n = len(sc['ops'])
     size = n // 2
     while size >= 1:
@@ -137,10 +141,15 @@ class Bad(Exception):
 
 
 def _iso(ts):
-    return _time.strftime('%Y-%m-%dT%H:%M:%S', _time.gmtime(ts))
+    return C.iso_local(ts)
 
 
 def run(sc, tape):
+    with C.local_timezone(sc.get('tz')):
+        return _run(sc, tape)
+
+
+def _run(sc, tape):
     seeder = C.import_seeder_threaded()
     import datetime as real_dt
     import mapproxy.util.times as times
@@ -234,7 +243,7 @@ def run(sc, tape):
         ok, g, msg = U.check_tile_image(Image.open(BytesIO(row[0])), coord, ocean=ocean)
         if not ok:
             raise Bad('wrong-tile-in-cache', 'cache holds a wrong image for %s: %s' % (coord, msg))
-        ts = calendar.timegm(_time.strptime(row[1], '%Y-%m-%d %H:%M:%S'))
+        ts = _time.mktime(_time.strptime(row[1], '%Y-%m-%d %H:%M:%S'))     # recorded in local time
         return g, float(ts)
 
     def threshold_now():
